@@ -168,6 +168,10 @@ type OrderCase struct {
 	Docs    []string    `json:"docs"`
 	SameAP  string      `json:"the_one_additionalProperties_rule,omitempty"` // set when all rules that meet are equal ("" none at all)
 	AllSame bool        `json:"all_rules_equal"`
+	// Required / Optional: the property requirements the child ends up with, own and inherited
+	// (through one or two steps)
+	Required []string `json:"required_keys"`
+	Optional []string `json:"optional_keys,omitempty"`
 }
 
 func init() {
@@ -226,10 +230,14 @@ func checkOrder(t run.TB, c OrderCase) (accepted bool) {
 			doc, _ := ref.Parse([]byte(d))
 			want := true
 			have := map[string]bool{}
+			known := map[string]bool{}
+			for _, k := range append(append([]string{}, c.Required...), c.Optional...) {
+				known[k] = true
+			}
 			for _, m := range doc.Members {
 				have[m.Key] = true
-				switch m.Key {
-				case "a", "b", "c", "own":
+				switch {
+				case known[m.Key]:
 					if m.Val.Kind != ref.KNumber {
 						want = false
 					}
@@ -244,13 +252,10 @@ func checkOrder(t run.TB, c OrderCase) (accepted bool) {
 					}
 				}
 			}
-			for _, ty := range c.Types {
-				if key := strings.TrimPrefix(ty.Name, "@p"); !have[key] {
+			for _, k := range c.Required {
+				if !have[k] {
 					want = false
 				}
-			}
-			if !have["own"] {
-				want = false
 			}
 			if all[0].docs[k] != want {
 				run.Fail(t, chkOrder, c, "document %s: accepted=%v, the inherited requirements and additionalProperties %s say %v", d, all[0].docs[k], c.SameAP, want)
@@ -269,16 +274,43 @@ func TestAllOfOrder(t *testing.T) {
 		var c OrderCase
 		var met []string // the additionalProperties rules that meet in the child
 		var names []string
+		c.Required = []string{"own"}
+		grand := false
 		for _, k := range keys {
 			ap := rapid.SampledFrom(aps).Draw(t, "ap"+k)
-			text := "{"
+			// a parent may itself inherit from a grandparent (whose key "g" is required), and its own
+			// key may be optional - so that it brings no requirement of its own
+			middle := rapid.IntRange(0, 3).Draw(t, "middle"+k) == 0 && !grand // (one path to the grandparent: a diamond is a duplicate-key error)
+			optOwn := rapid.IntRange(0, 2).Draw(t, "optOwn"+k) == 0
+			var rules []string
+			if middle {
+				rules = append(rules, "allOf: \"@pg\"")
+				if !grand {
+					grand = true
+					c.Required = append(c.Required, "g")
+				}
+			}
 			if ap != "" {
-				text += " // {additionalProperties: " + ap + "}"
+				rules = append(rules, "additionalProperties: "+ap)
 				met = append(met, ap)
 			}
-			text += "\n  \"" + k + "\": 1\n}"
+			text := "{"
+			if len(rules) > 0 {
+				text += " // {" + strings.Join(rules, ", ") + "}"
+			}
+			text += "\n  \"" + k + "\": 1"
+			if optOwn {
+				text += " // {optional: true}"
+				c.Optional = append(c.Optional, k)
+			} else {
+				c.Required = append(c.Required, k)
+			}
+			text += "\n}"
 			c.Types = append(c.Types, lib.Named{Name: "@p" + k, Text: text})
 			names = append(names, "@p"+k)
+		}
+		if grand {
+			c.Types = append(c.Types, lib.Named{Name: "@pg", Text: "{\n  \"g\": 1\n}"})
 		}
 		own := rapid.SampledFrom(append([]string{"", "", ""}, aps...)).Draw(t, "ownAP")
 		if own != "" {
@@ -314,7 +346,10 @@ func TestAllOfOrder(t *testing.T) {
 		for _, k := range keys {
 			full += "\"" + k + "\":1,"
 		}
-		c.Docs = []string{"{" + full + "\"own\":2}", "{" + full + "\"own\":2,\"z\":3}", "{" + full + "\"own\":2,\"z\":\"s\"}", "{" + full + "\"own\":2,\"z\":null}",
+		if grand {
+			full += "\"g\":1,"
+		}
+		c.Docs = []string{"{" + full + "\"own\":2}", strings.Replace("{"+full+"\"own\":2}", "\"g\":1,", "", 1), "{" + full + "\"own\":2,\"z\":3}", "{" + full + "\"own\":2,\"z\":\"s\"}", "{" + full + "\"own\":2,\"z\":null}",
 			"{\"own\":2,\"z\":3}", "{" + full + "\"z\":3}", "{" + full + "\"own\":\"s\"}", "{" + full + "\"own\":2,\"y\":1,\"z\":\"s\"}"}
 		acc := checkOrder(t, c)
 		run.Eval(chkOrder, len(met) >= 2, fmt.Sprint(c.Types), c.Child[0])
